@@ -57,6 +57,9 @@ def rand_circ(rng, m, elementary):
         for _ in range(rng.rint(0, 3)):
             lf = gen.rand_leaf(rng, min(m, 3))
             items.append((rng.rint(0, m - lf.k), lf))
+        if rng.chance(1, 2):      # a second, different block of the same size (same name, same width)
+            lf2 = gen.Leaf("U", k, gen.rand_unitary_exact(rng, k), ())
+            items.insert(rng.rint(1, len(items)), (rng.rint(0, m - k), lf2))
         mps_ok = all(lf.k <= 2 or lf.kind == "PERM" for _, lf in items)
     return Circ(m, items, mps_ok)
 
@@ -270,6 +273,52 @@ def run(ctx):
             except Exception as e:
                 fail(f"exception-masked-{name}-{type(e).__name__}", f"{name} raised {type(e).__name__}: {e}", case)
     ctx.streams["masks"] = len(mk)
+
+    # ------------------------------------------------------------ one long-lived backend under a mask, photon number changing
+    # (SLOS is left to C05: its cached levels are the subject there)
+    seqs = []
+    for i in range(ctx.n(25, 250)):
+        c = rng.choice(circs)
+        msk = [-1] * c.m
+        for j in rng.shuffle(range(c.m))[:rng.rint(1, max(1, c.m - 1))]:
+            msk[j] = rng.rint(0, 1)
+        ns = rng.shuffle([1, 2, 3])[:rng.rint(2, 3)]
+        seqs.append((c, msk, [gen.rand_state(rng, c.m, n) for n in ns if n <= nmax]))
+    flat = [(c, msk, s) for c, msk, ss in seqs for s in ss]
+    outs = iter(ctx.model.run([(23, [c.m, c.U, s, [msk], sum(s)]) for c, msk, s in flat]))
+    for c, msk, ss in seqs:
+        mstr = "".join("*" if d < 0 else str(d) for d in msk)
+        circuit = built.get(id(c)) or c.build()
+        names = ["Naive", "SLAP"] + (["MPS"] if c.mps_ok else [])
+        backs = {}
+        for name in names:
+            b = engines(True)[name]()
+            b.set_circuit(circuit)
+            b.set_mask(mstr)
+            backs[name] = b
+        for idx, s in enumerate(ss):
+            out = next(outs)
+            case = {"circuit": c.describe(), "mask": mstr, "inputs so far on the same backend": ss[:idx + 1]}
+            kept = [tuple(e[0]) for e in out]
+            pex = {tuple(e[0]): abs(un_qi(e[1])) ** 2 / e[2] for e in out}
+            ctx.case(["maskseq", gen.qmat_key(c.U), mstr, ss[:idx + 1]], idx >= 1, case)
+            ctx.count("mask-sequence")
+            for name, b in backs.items():
+                tol = 1e-6 if name == "MPS" else 1e-9
+                try:
+                    if name == "MPS":
+                        b.set_cutoff(max(1, (sum(s) + 1) ** (c.m // 2)))
+                    b.set_input_state(BS_(s))
+                    pd = b.prob_distribution()
+                    vals = {tuple(k): float(v) for k, v in pd.items()}
+                    keys = [k for k in (tuple(k) for k in pd.keys()) if vals[k] > 1e-12]
+                    nz = [t for t in kept if pex[t] > 1e-12]
+                    if keys != nz or any(abs(vals.get(t, 0.0) - pex[t]) > tol for t in kept):
+                        fail(f"masked-reused-backend-{name}", f"{name}: masked distribution wrong when the same backend serves "
+                             "inputs with different photon numbers", case, str(pex), str(vals))
+                except Exception as e:
+                    fail(f"exception-masked-reused-{name}-{type(e).__name__}", f"{name} raised {type(e).__name__}: {e}", case)
+    ctx.streams["mask, reused backend, changing photon number"] = len(flat)
 
     sample = [(21, [c.m, c.U, s, t]) for c, s, t in wb[:3]]
     a = ctx.model.run(sample)
